@@ -54,7 +54,7 @@ def run_script(ops_or_len, rng, profile, drv, res, pid, record=None, check_every
         oprng = random.Random(stable_hash(op))
         out = execute(world, op, oprng, tok)
         world.note_outer_pins()
-        mres = drv.ask({"cmd": "op", "op": {kk: v for kk, v in op.items() if kk not in ("create", "asset", "deleter", "stored_only")}})
+        mres = drv.ask({"cmd": "op", "op": {kk: v for kk, v in op.items() if kk not in ("create", "asset", "deleter", "stored_only", "proxy")}})
         if "error" in mres:
             raise RuntimeError("driver rejected op %r: %s" % (op, mres["error"]))
         cur = dump_impl(world)
